@@ -14,18 +14,34 @@ VMISUSE_DEFINE
 #if PART == 0
 /* ---- dispatcher: -1 exactly when the back end fails or the shared point is all zero ---- */
 #include "crypto_scalarmult/curve25519/scalarmult_curve25519.h"
-static int b_mult(unsigned char *q, const unsigned char *n, const unsigned char *p) { (void) n; (void) p; memcpy(q, vin.q, 32); return vin.mult_ret ? -1 : 0; }
-static int b_mult_base(unsigned char *q, const unsigned char *n) { (void) n; memcpy(q, vin.q, 32); return 0; }
+static unsigned char seen_n[32], seen_p[32]; static int n_mult, n_base;
+static int b_mult(unsigned char *q, const unsigned char *n, const unsigned char *p) { n_mult++; memcpy(seen_n, n, 32); memcpy(seen_p, p, 32); memcpy(q, vin.q, 32); return vin.mult_ret ? -1 : 0; }
+static int b_mult_base(unsigned char *q, const unsigned char *n) { n_base++; memcpy(seen_n, n, 32); memcpy(q, vin.q, 32); return 0; }
 struct crypto_scalarmult_curve25519_implementation crypto_scalarmult_curve25519_ref10_implementation = { b_mult, b_mult_base };
 int sodium_runtime_has_avx(void) { return 0; }
 #include "crypto_scalarmult/curve25519/scalarmult_curve25519.c"
 void hf_dispatch(void)
 {
-    VIN_GET();
-    unsigned char q[32]; int r = crypto_scalarmult_curve25519(q, vin.sk, vin.pk);
+    VIN_GET(); n_mult = n_base = 0;
+    /* null_mode selects the aliasing: 0 = three distinct buffers, 1 = output over the point, 2 = output over the scalar */
+    unsigned char qb[32], nb[32], pb[32], *q; int r;
+    memcpy(nb, vin.sk, 32); memcpy(pb, vin.pk, 32);
+    q = vin.null_mode == 1 ? pb : (vin.null_mode == 2 ? nb : qb);
+    r = crypto_scalarmult_curve25519(q, nb, pb);
+    VASSERT("the selected back end is run once on the caller's scalar and point as given (also when the output aliases one of them)", n_mult == 1 && n_base == 0 && v_eq(seen_n, vin.sk, 32) && v_eq(seen_p, vin.pk, 32));
     VASSERT("failure (-1) is reported exactly when the back end refuses the point or the shared point is all zero; otherwise 0", r == ((vin.mult_ret || v_is_zero(vin.q, 32)) ? -1 : 0));
     VASSERT("the shared point is returned unchanged", vin.mult_ret || v_eq(q, vin.q, 32));
     VREACH("hf_dispatch");
+}
+void hf_dispatch_base(void)
+{
+    VIN_GET(); n_mult = n_base = 0;
+    unsigned char qb[32], nb[32], *q; int r;
+    memcpy(nb, vin.sk, 32);
+    q = vin.null_mode == 2 ? nb : qb;
+    r = crypto_scalarmult_curve25519_base(q, nb);
+    VASSERT("base-point multiplication: the back end is run once on the caller's scalar, its result is returned, the call succeeds", r == 0 && n_base == 1 && n_mult == 0 && v_eq(seen_n, vin.sk, 32) && v_eq(q, vin.q, 32));
+    VREACH("hf_dispatch_base");
 }
 #elif PART == 1
 /* ---- crypto_kx ---- */
